@@ -235,7 +235,9 @@ class Cell(NullCell):
             payload += ser_result
             serialized_cells_len.append(len(ser_result))
 
-        payload_len = (len(payload).bit_length() + 7) // 8
+        # offsets in the index are doubled (to carry the cache bit) when has_cache_bits is set
+        max_offset = len(payload) * 2 if has_cache_bits else len(payload)
+        payload_len = (max_offset.bit_length() + 7) // 8
 
         root_num = 1  # currently 1
         root_index = b'\00' * cells_len
@@ -252,8 +254,10 @@ class Cell(NullCell):
                  root_index
 
         if has_idx:
+            offset = 0
             for l in serialized_cells_len:
-                result += l.to_bytes(payload_len, 'big')
+                offset += l  # the index holds the end offset of every cell
+                result += (offset * 2 if has_cache_bits else offset).to_bytes(payload_len, 'big')
         result += payload
         if hash_crc32:
             result += crc32c(result)
